@@ -1,1 +1,27 @@
-fn main(){}
+mod align;
+mod c09;
+mod front;
+mod stats;
+
+fn main() {
+    let args: Vec<String> = std::env::args().collect();
+    let id = args.get(1).map(|s| s.as_str()).unwrap_or("");
+    // quiet panic hook: panics of the code under test are caught and reported by the checks themselves
+    std::panic::set_hook(Box::new(|_| {}));
+    let replay = args
+        .iter()
+        .position(|a| a == "--replay")
+        .and_then(|i| args.get(i + 1).cloned());
+    let code = match id {
+        "C09" => c09::run(replay),
+        "count" => {
+            stats::count_families(&args[2..]);
+            0
+        }
+        _ => {
+            eprintln!("vcheck: unknown property id `{id}`");
+            2
+        }
+    };
+    std::process::exit(code);
+}
